@@ -33,7 +33,7 @@ def parseSrc (tok : String) : Option Src :=
   | _ => none
 
 def encIxn (i : Ixn) : String :=
-  s!"{encB i.peer};{encB i.src};{encB i.dst};{encAct i.act};{i.perms};{i.prec};{encB i.id}"
+  s!"{encB i.peer};{encB i.src};{encB i.dst};{encAct i.act};{i.perms};{i.prec}"
 
 def encIxns (l : List Ixn) : String := encList (l.map encIxn)
 
@@ -88,7 +88,7 @@ def step (st : Store) (toks : List String) : Store × String :=
   | ["lset", id, src, dst, act] =>
     match decB id, decB src, decB dst, decAct act with
     | some id, some src, some dst, some act =>
-      res (legacySet st { peer := [], src := src, dst := dst, act := act, perms := 0, prec := 0, id := id })
+      res (legacySet st id { peer := [], src := src, dst := dst, act := act, perms := 0, prec := 0 })
     | _, _, _, _ => (st, "bad-op")
   | ["ldel", id] =>
     match decB id with
